@@ -189,7 +189,7 @@ impl C07 {
             let want = interpret(&w.reg, &anc, w.cfg.enc);
             self.digest.u64(anc.len() as u64);
             self.digest.u64(want.digest());
-            let got = observe(&w.reps[r].doc, Some(&hs)).map_err(|e| fail("reads_at", &format!("read-inconsistency:{}", sig_of_detail(&e.0)), format!("at heads of {} changes: {}", anc.len(), e.0)))?;
+            let got = observe(&w.reps[r].doc, Some(&hs)).map_err(|e| fail("reads_at", &read_sig(&e.0), format!("at heads of {} changes: {}", anc.len(), e.0)))?;
             if let Some(d) = tree_diff(&want, &got) {
                 return Err(fail("reads_at", &format!("historical-state-differs:{}", sig_of_detail(&d)), format!("at heads of {} changes (document has {}): model vs *_at reads: {d}", anc.len(), w.reps[r].known.len())));
             }
@@ -388,7 +388,7 @@ impl C29 {
         }
         let want = interpret(&w.reg, &set, w.cfg.enc);
         w.stats.bump("probe.isolated_reads_checked");
-        let got = observe(&w.reps[r].doc, None).map_err(|e| fail("isolated_reads", &format!("read-inconsistency:{}", sig_of_detail(&e.0)), e.0.clone()))?;
+        let got = observe(&w.reps[r].doc, None).map_err(|e| fail("isolated_reads", &read_sig(&e.0), e.0.clone()))?;
         if let Some(d) = tree_diff(&want, &got) {
             return Err(fail("isolated_reads", &format!("isolated-state-differs:{}", sig_of_detail(&d)), format!("model (ancestors of the isolation heads + own isolated changes, {} changes; the document holds {}) vs reads: {d}", set.len(), w.reps[r].known.len())));
         }
